@@ -234,6 +234,35 @@ class Interp:
             self.probes['callback_returned_value'] += 1
         return self.RETURNS.get(code)
 
+    def op_rebind(self, op):
+        """A callback attribute of a class is bound to a new function
+        (monkey-patching, a reloaded module) while no instance of the class
+        or of its subclasses is registered: registrations made afterwards
+        call the new function."""
+        _, ci, mname = op
+        if self.depth or self.queue or ci >= len(self.actors.classes):
+            return 'skip'
+        fam = {ci}
+        for i, h in enumerate(self.cfg['hclasses']):
+            if h.get('base') in fam or (h.get('base2') in fam):
+                fam.add(i)
+        busy = set(self.registered) | set(self.eids) | self.held | \
+            self.limbo | self.limbo_unreg | self.die_later
+        if any(self.cfg['handlers'][s] in fam for s in busy):
+            return 'skip'
+        self.nrebind = getattr(self, 'nrebind', 0) + 1
+        owner = 1000 + self.nrebind
+        it = self
+
+        def method(self, /, *args, **kwargs):
+            it.last_owner = owner
+            it.cb(self, mname, args, kwargs)
+            return it.retval(self)
+        method.__name__ = mname
+        method._owner = owner
+        setattr(self.actors.classes[ci], mname, method)
+        self.probes['callback_rebound_on_class'] += 1
+
     def op_redeco(self, op):
         """The decorator applied again to a class whose instances have been
         (but are not now) registered."""
@@ -1248,6 +1277,34 @@ def generate(prop, run_seed, tier='quick', tolerate=frozenset()):
                           crng.choice([0, 1, 2, 3])])
         k = crng.randint(0, len(ops))
         ops[k:k] = block
+    if prop == 'C03' and crng.random() < .08:
+        # a callback rebound on the class between two registrations
+        ci = crng.randrange(len(cfg['hclasses']))
+        fam = {ci}
+        for i, h in enumerate(cfg['hclasses']):
+            if h.get('base') in fam:
+                fam.add(i)
+        slots = [s for s, c in enumerate(cfg['handlers']) if c in fam]
+        block = [['add_handler', s] for s in slots[:1]]
+        block += [['remove_handler', s] for s in slots]
+        block.append(['rebind', ci, crng.choice(METHODS[:5])])
+        block += [['add_handler', s] for s in slots if crng.random() < .8]
+        for e in EVENTS[:3]:
+            state['token'] += 1
+            block.append(['dispatch', e, state['token'], 1])
+        k = crng.randint(0, len(ops))
+        ops[k:k] = block
+    if prop == 'C03' and crng.random() < .06:
+        # a listener is removed, dies, and a new one (created right away,
+        # most likely at the same address) is registered
+        s_ = crng.randrange(len(cfg['handlers']))
+        block = [['add_handler', s_], ['remove_handler', s_], ['drop', s_],
+                 ['revive', s_], ['add_handler', s_]]
+        for e in EVENTS[:3]:
+            state['token'] += 1
+            block.append(['dispatch', e, state['token'], 1])
+        k = crng.randint(0, len(ops))
+        ops[k:k] = block
     r_long = crng.random()
     if prop == 'C04' and r_long < .004:
         # a very long backlog (bounded buffers): one listener, no scripts
@@ -1412,7 +1469,8 @@ PROBES = {
             'kwargs_only_dispatch', 'multi_class_dispatch',
             'dispatch_nobody_listens', 'overridden_callback_called',
             'callback_returned_value', 'redecorated_class',
-            'tricky_keyword_names', 'partialmethod_callback'],
+            'tricky_keyword_names', 'partialmethod_callback',
+            'callback_rebound_on_class'],
     'C04': ['fault_pos.first', 'fault_pos.middle', 'fault_pos.last',
             'release_aborted_by_raise', 'release_cut_by_nested_disable',
             'nested_enable_inside_release', 'raise_then_second_enable',
